@@ -480,6 +480,9 @@ void LabeledDirectedGraph<EdgeLabel>::addEdge(
     VertexIndex source, VertexIndex destination, const EdgeLabel &label,
     bool force
 ) {
+    assertVertexInRange(source);
+    assertVertexInRange(destination);
+
     if (force || !hasEdge(source, destination)) {
         adjacencyList[source].push_back(destination);
         ++edgeNumber;
